@@ -110,6 +110,7 @@ def check(run, project):
                        construct=f"byte request in {name}")
     # ---- T2
     t2(run, project)
+    t6(run, project)
     # ---- T3
     forbidden = {roles.buffer_param, roles.iter_var}
     for c in walk_no_nested(fn):
@@ -251,6 +252,69 @@ def _param_uses(mod, fn, param, seen):
                                     yield from inner
                                     continue
             yield n, stmt, ok
+
+
+def _traversal_starts(mod, fn, param, depth=0):
+    """places where a traversal of the *raw* parameter `param` (not yet turned into an iterator by `param = iter(param)`) is
+    started: a for / comprehension over it, iter(param), or handing it to a function of the module that starts one.
+    -> [(node, repeated)]: repeated = the place lies in a loop (or the helper starts more than one)"""
+    rebind = [a for a in fn.body if isinstance(a, ast.Assign) and len(a.targets) == 1 and norm(a.targets[0]) == param
+              and isinstance(a.value, ast.Call) and call_name(a.value) == "iter" and a.value.args and norm(a.value.args[0]) == param]
+    cut = order(rebind[0]) if rebind else None
+    out = []
+    for n in walk_no_nested(fn):
+        if not (isinstance(n, ast.Name) and n.id == param and isinstance(n.ctx, ast.Load)):
+            continue
+        if cut is not None and order(n) > cut and not any(n is x for x in ast.walk(rebind[0])):
+            continue  # an iterator by now
+        if rebind and any(n is x for x in ast.walk(rebind[0])):
+            continue  # the conversion itself
+        p = n._parent
+        in_loop, q = False, n
+        while q is not fn:
+            if isinstance(q, (ast.For, ast.While)) and not (isinstance(q, ast.For) and q.iter is n) or isinstance(q, ast.comprehension) and q.iter is not n:
+                in_loop = True
+            q = q._parent
+        if (isinstance(p, (ast.For, ast.comprehension)) and p.iter is n) or (isinstance(p, ast.Call) and call_name(p) == "iter" and p.args and p.args[0] is n):
+            out.append((n, in_loop))
+            continue
+        call, kw = p, None
+        if isinstance(p, ast.keyword):
+            kw, call = p.arg, p._parent
+        if isinstance(call, ast.Call) and isinstance(call.func, ast.Name) and (kw is not None or n in call.args) and depth < 3:
+            try:
+                callee = mod.function(call.func.id)
+            except (AnalysisError, KeyError):
+                callee = None
+            if callee is not None and not callee.args.vararg:
+                cparams = [a.arg for a in callee.args.args]
+                target = kw if kw is not None else (cparams[call.args.index(n)] if call.args.index(n) < len(cparams) else None)
+                if target in cparams:
+                    inner = _traversal_starts(mod, callee, target, depth + 1)
+                    if inner:
+                        out.append((n, in_loop or len(inner) > 1 or any(r for _, r in inner)))
+    return out
+
+
+def t6(run, project):
+    """source-agnostic: the front-end scanners accept any iterable of bytes.  An iterable that is not its own iterator (bytes,
+    bytearray, list) starts from its first item again whenever a traversal of it is started, so a scanner may start a
+    traversal of its raw `buffer` parameter only once (or turn it into an iterator first: `buffer = iter(buffer)`)."""
+    for modname, fname in BUFFER_FUNCS:
+        mod = project.module(modname)
+        fn = mod.function(fname)
+        starts = _traversal_starts(mod, fn, "buffer")
+        bad = [n for n, rep in starts if rep] or ([n for n, _ in starts][1:] if len(starts) > 1 else [])
+        stmt = None
+        if bad:
+            stmt = bad[0]
+            while not isinstance(stmt, ast.stmt):
+                stmt = stmt._parent
+        run.ob("T6", not bad, f"{modname.split('.')[-2]}.{fname}: the source is traversed once",
+               f"`{norm(stmt).splitlines()[0][:80] if stmt is not None else ''}` starts another traversal of the raw `buffer` parameter (it is "
+               "not turned into an iterator first): for a bytes / bytearray / list source every traversal begins at the first byte "
+               "again, so the decoder sees the first digits over and over - the result depends on the kind of iterable", module=mod,
+               node=stmt or fn, func=fname, construct=f"{fname} traversals of buffer")
 
 
 def t2(run, project):
